@@ -29,11 +29,11 @@ claims = {
          TECH + "seeded histories through every carrier/wrapper; address and allocated() ledger per step"),
  "C14": ("sim-arena+sim-coll", "5 C14", "Operations on the claimed original handle are interleaved with operations on the claim guard: every non-zero request fails (Err from try_/Allocator calls, the unwinding 'claimed' panic from panicking ones, also through trait objects; an abort is a violation), stats are all zero, a second claim unwinds, nothing done through the claimed handle changes what the guard sees, and after the guard ends (also by unwinding) the original handle resumes exactly where the guard stopped. In the collection world BumpVecs created before the claim are pushed / extended / reserved / resized / shrunk / dropped while the guard is alive and allocating: growth must fail leaving the contents unchanged, the guard's allocated bytes and chunk count must not change, and the vectors keep working after the claim ends.",
          TECH + "seeded interleaving of two handles onto one arena, unwinding through the guard"),
- "C15": ("sim-coll", "5 C15", "While a MutBumpVec / MutBumpVecRev / alloc_iter_mut(_rev) is being filled, dropped or unwound the bump position of every chunk up to the original current chunk must not move and a later chunk that became current must be empty; finalising yields exactly the pushed elements and advances allocated() by at most size + element padding + minimum-alignment padding.",
+ "C15": ("sim-coll+sim-strs", "5 C15", "(string world: MutBumpString, alloc_fmt_mut and alloc_cstr_fmt_mut get the same position oracles; collection world additionally drives alloc_try_with_mut with closures that return Ok, Err or unwind and values that need another chunk) While a MutBumpVec / MutBumpVecRev / alloc_iter_mut(_rev) is being filled, dropped or unwound the bump position of every chunk up to the original current chunk must not move and a later chunk that became current must be empty; finalising yields exactly the pushed elements and advances allocated() by at most size + element padding + minimum-alignment padding.",
          TECH + "chunk positions recorded before creation and compared after every fill step, drop, unwind and finalise; lying size hints, refusals and callback panics injected"),
  "C16": ("sim-coll+sim-strs", "5 C16", "(string world: split_off of BumpBox<str> / FixedBumpString / BumpString over all byte ranges against String: both parts hold exactly the expected text, capacities add up, no sibling string changes when a part is grown, shrunk, converted or dropped) split_off / split_at / split_first/last / split_off_first/last / partition / merge on BumpBox<[T]>, FixedBumpVec and BumpVec against the model: parts partition the elements exactly and in order, capacities add up, merge restores adjacent parts and rejects non-adjacent ones; afterwards operations on one part (growth, shrink, drop, dealloc, conversion) are interleaved with unrelated allocations and every sibling and neighbour is re-checked after each step.",
          TECH + "seeded follow-up interleaving on the parts against allocator state; sibling contents and neighbouring allocations re-read after every step"),
- "C18": ("sim-arena", "5 C18", "The bump position is checked to be a multiple of the minimum alignment in force at region entry, after every operation inside aligned / scoped_aligned regions (all outer/inner pairs, nested, with chunk switches and unwinding), and of the outer alignment after exit; scoped_aligned restores the entry position exactly.",
+ "C18": ("sim-arena", "5 C18", "(runs may end with a conversion that has a run-time requirement: with_settings to a guaranteed-allocated type on an arena that has / has not a chunk, to a non-claimable type on an arena that is / is not claimed by a leaked guard; it must panic exactly when the requirement is not met and otherwise hand the arena over unchanged) The bump position is checked to be a multiple of the minimum alignment in force at region entry, after every operation inside aligned / scoped_aligned regions (all outer/inner pairs, nested, with chunk switches and unwinding), and of the outer alignment after exit; scoped_aligned restores the entry position exactly.",
          TECH + "per-step position invariant with the interpreter tracking the alignment in force; unwinding out of regions"),
  "C17": ("sim-lock", "5 C17", "Two arenas with identical settings on two identically seeded SimHeaps execute the same history in lock-step; every step issues the same request through two different entry points (Bump / BumpScope / & / &mut / WithoutDealloc / WithoutShrink / dyn trait objects x panicking / try_ / typed sized / typed slice / generic layout / Allocator trait, alloc_try_with and its _mut / try_ twins, grow / shrink / deallocate / reserve / prepare+commit through different carriers, nested scopes, checkpoints); block offsets, lengths, contents, allocated(), remaining(), chunk count and position must stay equal, and the two heaps must see the same number of base-allocator calls.",
          TECH + "lock-step execution of two arenas in identical simulated environments, entry-point pair chosen per step by the seed"),
